@@ -104,6 +104,15 @@ class If(Operator):
             if left.get_identifiers() != condition.get_identifiers():
                 raise SemanticError("1-1-9-6", op=cls.op)
         result_components = {comp_name: copy(comp) for comp_name, comp in left.components.items()}
+        # a datapoint may take its values from the else operand:
+        # a component is nullable if it is nullable in either operand
+        for comp_name, comp in result_components.items():
+            if comp.role == Role.IDENTIFIER:
+                continue
+            if isinstance(right, Dataset) and comp_name in right.components:
+                comp.nullable = comp.nullable or right.components[comp_name].nullable
+            elif isinstance(right, Scalar) and (right.data_type == Null or right.value is None):
+                comp.nullable = True
         return Dataset(name=dataset_name, components=result_components, data=None)
 
 
